@@ -14,7 +14,7 @@ LEVEL_NOTE = ("canonicalisation reads private attributes (_tasks order, _metarat
               "on them and on the harness-visible task states have equal futures; Deferred is trusted")
 TECHNIQUE = "explicit-state BFS over real objects, lock-step task-state reference, most-general (nondeterministic) iterators"
 RULE = ("BFS over histories of {scheduler tick, pause(i), resume(i), stop(i), whenDone(i), fire the Deferred task i waits on "
-        "ok / failed, Cooperator.stop(), add a task by cooperate()/coiterate()} on a real Cooperator(scheduler=manual, "
+        "ok / failed, Cooperator.stop(), Cooperator.start() again once every task of the stopped cooperator has finished, add a task by cooperate()/coiterate()} on a real Cooperator(scheduler=manual, "
         "terminationPredicateFactory=k work units) holding <= 3 tasks; what each iterator does on each next() call "
         "{yield value, yield unfired Deferred, yield already-fired Deferred, yield already-failed Deferred, StopIteration, raise; "
         "yield a fired Deferred whose chain is suspended on an unfired inner Deferred, yield a Deferred fired while pause()d by "
@@ -269,6 +269,9 @@ class St:
                 self.flag("Cooperator:tick-advanced-nothing-with-runnable-task", "after %s" % self.last)
         elif op == "add":
             self.add(ev[1])
+        elif op == "coopstart":
+            self.coop_stopped = False
+            self.real("Cooperator.start", self.coop.start)
         elif op == "coopstop":
             self.coop_stopped = True
             nrun = sum(1 for x in self.tasks if x.runnable())
@@ -329,6 +332,10 @@ class St:
                     evs.append(("resume", t.i))
         if not self.coop_stopped:
             evs.append(("coopstop",))
+        elif all(t.fin is not None for t in self.tasks):
+            # restart (round-10 miss C11-m): only once every task of the stopped cooperator has finished, so that no
+            # task left paused / waiting by stop() (whose fate the statement does not fix) is carried across
+            evs.append(("coopstart",))
         if len(self.tasks) < MAXTASKS:
             evs.append(("add", "coop"))
             evs.append(("add", "coit"))
